@@ -16,16 +16,16 @@ CHECKS = {
     'C12': ('Lifecycle', 'TLC exhaustive on Lifecycle.tla with the poller split into observe / callback (OnlyWhenAllowed, ExactlyOnce, NotLost, Refused) and the liveness property EventuallyIfIdle; the strongest priority REQUESTED so far is accumulated by the trace specification from the submissions themselves (StrongestRequested, StrongestWaits), unrecognised priority strings included; a focus instance explores two submissions against a loaded pipeline draining in every order; System.tla composes the real FSM with the real scheduler and judges the fire against ground truth; replays on the real FSM with the real poller functions running in gated threads and their deferred callback delivered as a separate event; update_trigger is wrapped to log the farm/scheduler state at the instant it is called; TLC validates each step and the quiescent end state', '5.C12'),
     'C13': ('DbLock', 'TLC exhaustive on DbLock.tla (3-4 clients; request / poll / release / disconnect by any client at every step) (and the holder reopening the database under the lock) with Mutex, ToldTruth, CrashFree, GrantNext and the liveness properties NoStarve / LockFreed under fairness; EVERY transition of the 3-client instance + simulated 4-client behaviours executed on real comms.Worker protocol objects with one virtual clock per connection and real pickled commands in 1/7-byte chunks, partly through the real blocking client functions; TLC validates lock bit, ownership flags and every status message decoded from the client transports', '5.C13'),
     'C14': ('Frame', 'TLC exhaustive on Frame.tla (labelled byte streams, transcribed reassembly loop and TwistedWrapper.process, all 32 handshake validity assignments, every chunking as a path); every chunking of short streams on the three real protocol classes and on the real blocking reader message.receive (socket with short reads at every segment boundary), simulated chunkings of handshake streams, two connections of one protocol class served interleaved, and real-length streams at every single / pair of split positions; what reached the application is recorded after every chunk and validated by TLC (prefix, reassembly, gate, fail-closed, coalesced delivery)', '5.C14'),
-    'C16': ('Gate', 'TLC enumerates ~9.8k package descriptors (15 factory-kind subsets x 8 dependency shapes x 49 rule clauses at every applicable position) and checks the transcribed _walk/_verify traversal against Accept(d) = no violation; every descriptor (stratified sample in quick) is materialised on disk and judged by the real tools.compliant._verify (and the CLI for a sample); accepted packages must pass dag.Construct, schedule.build, organize, next_job_batch; TLC validates verdict = Accept(d) on the records', '5.C16'),
+    'C16': ('Gate', 'TLC enumerates ~9.8k package descriptors (15 factory-kind subsets x 8 dependency shapes x 57 rule clauses at every applicable position, event layouts with falsy-but-defined moment fields) and checks the transcribed _walk/_verify traversal against Accept(d) = no violation; every descriptor (stratified sample in quick) is materialised on disk and judged by the real tools.compliant._verify (and the CLI for a sample); accepted packages must pass dag.Construct, schedule.build, organize, next_job_batch; TLC validates verdict = Accept(d) on the records', '5.C16'),
     'C19': ('FrontEnd', 'TLC enumerates 18k (quick) / 400k (thorough) request paths over a tree with two roots, outside files and in/out symlinks, checks the transcribed _static against the declarative jail, and 9.7k endpoint x method x certificate x hook situations read from the real routing table; each is executed on the real fe._static, StaticContent.render_GET, a real twisted Site, DynamicContent.render with recording handlers; TLC validates which marker bytes came back / whether the handler ran', '5.C19'),
-    'C20': ('Moment', 'TLC checks the transcribed _delay against Occ(spec) (Computable, Lands, NotFurther) on 126 specifications x 4384 instants of a 3-year calendar, and the firing model MomentFire (FireTargets, BootFires, BootOnce, Armed, Recurs); the real _delay under an injected clock for every/sampled (spec, instant) pair and the real defer/periodics/complete with the virtual reactor clock for every transition of the firing model are validated by TLC; the fires-once defect of defer/complete was repaired (commit 37363f0) after the repair had been model-checked as the rearm variant of MomentFire', '5.C20'),
-    'C15': ('Version', 'TLC checks the transcribed comparison operators / newer() against the lexicographic order on all 729 version pairs, and the transcribed _diff/build against the declarative Scheduled(a) over engines x persisted version lists x bump choices at the three levels; the real operators on 8 real Version subclasses for every pair and the real version.current + schedule.build (+ db.versions() on a real shelve DB in thorough) for every enumerated case are validated by TLC', '5.C15'),
-    'C17': ('Search', 'TLC checks Denote(Scrub(e)) = Denote(e) on all 65,641 run-id expressions and the transcribed shelve find/facet against the declarative Match/FindOK/Pages/FacetOK over small databases x constraint combinations x pages; the real _scrub (3 input forms) and the real shelve search + fe.api wrappers on real shelve files are executed for the TLC-generated cases and validated by TLC', '5.C17'),
-    'C06': ('Store', 'TLC exhaustive on Store.tla (catalogue tables, prime keys, blobs and a reference dictionary; updates, loads at exact/absent/future runs, removes, version bumps at three levels, target additions, close/reopen over prefix-related names) with LoadOK; every transition of the small instance + pseudo-random depth-25 histories executed on real shelve files through the in-memory client/server bridge (real Interface._update/_load, Connector, comms.Worker); TLC validates every load result against the reference dictionary', '5.C06'),
-    'C07': ('StoreCrash', 'TLC exhaustive on StoreCrash.tla (an update as six separately enabled steps, Crash enabled between any two, reopen, purge; 12 kill sites; MoveFails: the rename into the store fails and the process lives on) with NamedByDigest, NoDangling, NoveltyExact, SingleCopy, and the wrong design (record before move) required to fail; histories ending in every kill site are executed in forked child processes on real files (os._exit injected at the chosen step), the parent reopens the database from the files; TLC validates the directory listing with recomputed digests, the prime table and the reported novelty flags', '5.C07'),
-    'C08': ('Store', 'same module as C06 with the clauses Bijective, Survives, Resolves, NextRun, ExactNames (remove / reset / trace touch exactly the entries with those exact names) on real shelve files, tables and indices logged after each operation and after reopen', '5.C08'),
-    'C09': ('Dag', 'TLC runs the transcription of dag.Construct (every _parents iteration order) on the bounded program domain and checks every clause against the declarative graph; every program is materialised as an engine, the real Construct runs on it twice (factory order reversed) and TLC validates the record with the same clauses', '5.C09'),
-    'C18': ('Chronicle', 'TLC checks the transcribed day-walk of chronicle.find (and of the two front-end callers) against the declarative window on three calendars straddling year end, leap day and month ends, and AppendOnce on the journal files; the real append/find and fe.api.schedule.failed/succeeded run on real files under an injected clock for TLC-generated histories and queries; TLC validates every answer; the first sentence (every completed unit recorded once) is also validated on scheduler histories through the real Hand._res -> schedule.complete -> chronicle.append path (clause C18.CompletedOnce of Sched_Trace.tla)', '5.C18'),
+    'C20': ('Moment', 'TLC checks the transcribed _delay against Occ(spec) (Computable, Lands, NotFurther) on 126 specifications x 4384 instants of a 3-year calendar (the domain of accepted specifications is taken from the real compliance rule_10 over 162 MOMENT shapes), and the firing model MomentFire (FireTargets, BootFires, BootOnce, Armed, Recurs); the real _delay under an injected clock for every/sampled (spec, instant) pair and the real defer/periodics/complete with the virtual reactor clock for every transition of the firing model are validated by TLC; the fires-once defect of defer/complete was repaired (commit 37363f0) after the repair had been model-checked as the rearm variant of MomentFire', '5.C20'),
+    'C15': ('Version', 'TLC checks the transcribed comparison operators / newer() against the lexicographic order on all 729 version pairs, and the transcribed _diff/build against the declarative Scheduled(a) over engines x persisted version lists x bump choices at the three levels; the real operators on 8 real Version subclasses for every pair and the real version.current + schedule.build (+ db.versions() on a real shelve DB, a part of it in quick; engines with value-less state vectors) for every enumerated case are validated by TLC', '5.C15'),
+    'C17': ('Search', 'TLC checks Denote(Scrub(e)) = Denote(e) on all 65,641 run-id expressions and the transcribed shelve find/facet against the declarative Match/FindOK/Pages/FacetOK over small databases (run ids shifted so that digit counts differ) x constraint combinations x pages; the real _scrub (3 input forms) and the real shelve search + fe.api wrappers on real shelve files are executed for the TLC-generated cases and validated by TLC', '5.C17'),
+    'C06': ('Store', 'TLC exhaustive on Store.tla (catalogue tables, prime keys, blobs and a reference dictionary; updates, loads at exact/absent/future runs, removes, version bumps at three levels, target additions, close/reopen over prefix-related names) with LoadOK; every transition of the small instance + pseudo-random depth-25 histories executed on real shelve files through the in-memory client/server bridge (real Interface._update/_load, Connector, comms.Worker); TLC validates every load result against the reference dictionary; loaded objects are edited in place by the harness (caller's copy), some histories store 70 KiB values that differ only in the tail', '5.C06'),
+    'C07': ('StoreCrash', 'TLC exhaustive on StoreCrash.tla (an update as six separately enabled steps, Crash enabled between any two, reopen, purge; 12 kill sites; MoveFails: the rename into the store fails and the process lives on; StagedLost: the staged file vanishes before the server handles it; a kill inside the transfer of the bytes) with NamedByDigest, NoDangling, NoveltyExact, SingleCopy, and the wrong design (record before move) required to fail; histories ending in every kill site are executed in forked child processes on real files (os._exit injected at the chosen step), the parent reopens the database from the files; TLC validates the directory listing with recomputed digests, the prime table and the reported novelty flags', '5.C07'),
+    'C08': ('Store', 'same module as C06 with the clauses Bijective, Survives, Resolves, NextRun, ExactNames (remove / reset / trace over several tasks / the worm removal tool incl. run 0 touch exactly the entries with those exact names) on real shelve files, tables and indices logged after each operation and after reopen', '5.C08'),
+    'C09': ('Dag', 'TLC runs the transcription of dag.Construct (every _parents iteration order) on the bounded program domain and checks every clause against the declarative graph; every program (incl. same-named producers in different packages and names that are prefixes of one another) is materialised as an engine, the real Construct runs on it twice (factory order reversed) and TLC validates the record with the same clauses', '5.C09'),
+    'C18': ('Chronicle', 'TLC checks the transcribed day-walk of chronicle.find (and of the two front-end callers) against the declarative window on three calendars straddling year end, leap day and month ends, and AppendOnce on the journal files; the real append/find and fe.api.schedule.failed/succeeded run on real files under an injected clock for TLC-generated histories and queries; another reader of the history (fe.api.df_model_statistics) and in-place edits of returned entries between queries; TLC validates every answer; the first sentence (every completed unit recorded once) is also validated on scheduler histories through the real Hand._res -> schedule.complete -> chronicle.append path (clause C18.CompletedOnce of Sched_Trace.tla)', '5.C18'),
 }
 
 NOT_YET = {}
